@@ -250,7 +250,9 @@ def register(R):
             # non-seekable stream of unknown length the bytes from the call position to EOF (full reads)
             thr = c.old.f(c.a_config, 'multipart_threshold')
             size = c.new.f(c.new.f(c.a_transfer_future, '_meta'), '_size')
-            g = c.new.st.ghost.get(('stream', fo.label))
+            # (the source stream / probe buffer as they are when the request-submitting function takes over)
+            at_call = ev[0].extra['pre']
+            g = at_call.ghost.get(('stream', fo.label))
             if cls == 'UploadNonSeekableInputManager':
                 known = z3.Not(is_none(c.old.f(c.old.f(c.a_transfer_future, '_meta'), '_size')))
                 total = (g['len'] - g['pos0']) if g is not None else None
@@ -268,7 +270,7 @@ def register(R):
                 out['discovered_size_is_position_to_eof_and_position_restored'] = (
                     z3.Implies(was_unknown, z3.And(optval(size) == g['len'] - g['pos0'], g['pos'] == g['pos0'])), ['C01'])
             if cls == 'UploadNonSeekableInputManager':
-                d = c.new.obj(mgr).fields['_initial_data']
+                d = at_call.obj(mgr).fields['_initial_data']
                 out['probe_buffer_at_most_threshold_bytes'] = (
                     B(True) if isinstance(d, bytes) else (to_int_term(d.hi) - to_int_term(d.lo) <= thr), ['C11'])
         return out
